@@ -198,8 +198,16 @@ pub fn record(args: &Args, s: &mut Summary) {
             };
             if x != 0.0 && !pool.iter().any(|y| *y == x) {
                 pool.push(x);
+                // the adjacent floats are different times: a lookup one ulp before a point must not see it
+                if rng.chance(1, 3) {
+                    let nb = f64::from_bits(if rng.chance(1, 2) { x.to_bits() + 1 } else { x.to_bits() - 1 });
+                    if nb != 0.0 && nb.is_finite() && !pool.iter().any(|y| *y == nb) {
+                        pool.push(nb);
+                    }
+                }
             }
         }
+        let n = pool.len();
         pool.sort_by(|a, b| a.total_cmp(b));
         let tm = Pool(pool.clone());
         let mut cp = ControlPoints::default();
@@ -211,9 +219,9 @@ pub fn record(args: &Args, s: &mut Summary) {
                 let p = match k {
                     "tim" => json!({"t": t, "bl": *rng.pick(&[500, 250, 6, 60000]), "omit": rng.chance(1, 3),
                                      "sig": *rng.pick(&[4, 3, 7])}),
-                    "dif" => json!({"t": t, "sv": *rng.pick(&[1000, 2000, 500]), "ticks": rng.chance(4, 5)}),
-                    "eff" => json!({"t": t, "kiai": rng.chance(1, 2), "scroll": *rng.pick(&[1000, 1000, 250])}),
-                    _ => json!({"t": t, "bank": *rng.pick(&[1, 2, 3]), "vol": *rng.pick(&[100, 50, 0]),
+                    "dif" => json!({"t": t, "sv": *rng.pick(&[1000, 2000, 500, 1000, 50, 20000]), "ticks": rng.chance(4, 5)}),
+                    "eff" => json!({"t": t, "kiai": rng.chance(1, 2), "scroll": *rng.pick(&[1000, 1000, 250, 5, 20000])}),
+                    _ => json!({"t": t, "bank": *rng.pick(&[1, 2, 3]), "vol": *rng.pick(&[100, 50, 0, 100, 150, 0, -20]),
                                  "custom": *rng.pick(&[0, 0, 2])}),
                 };
                 let r = guarded("cp record add", || {
